@@ -1,4 +1,9 @@
 import CoxeterVerif.Lemmas.MeshIO
+/-!
+  Helper lemmas of C20, part 2: OFF, PLY, VTK (`rstrip("\n")`), STL (nested loops, tab indentation) —
+  for each format `toFmt … = render (fmtLines …)` (the Python string assembly is the rendering of a list of
+  token lines) and the token-level reader recovers the mesh; fan-triangulation facts.
+-/
 set_option linter.unusedSimpArgs false
 namespace MeshIO
 
